@@ -15,6 +15,7 @@ Holds(name, c, ev, pos) ==
     [] name = "C16_Bytes" -> C16_Bytes(c, ev, pos)
     [] name = "C16_Captions" -> C16_Captions(c, ev, pos)
     [] name = "C06_FigBreak" -> C06_FigBreak(c, ev, pos)
+    [] name = "C06_FigSubline" -> C06_FigSubline(c, ev, pos)
 Init == tid \in 1..Len(All) /\ l = 1 /\ bad = {}
 Failing(t, pos) == {y \in Judge : ~Holds(y, All[t].c, E(t), pos)}
 Consume(kind) == /\ l <= Len(E(tid)) /\ E(tid)[l].k = kind
